@@ -393,7 +393,7 @@ class Rule(NamedBox):
         return ri
 
     def _pretty(self, lean=False):
-        str_template = "{is_name}{no_memo}{name}{base}{params}:{exp}"
+        str_template = "{is_name}{no_memo}{no_stak}{name}{params}{base}:{exp}"
 
         if lean:
             params = ''
@@ -431,6 +431,7 @@ class Rule(NamedBox):
             params=params,
             exp=exp,
             no_memo='@nomemo\n' if self.no_memo else '',
+            no_stak='@nostak\n' if self.no_stak else '',
             is_name='@name\n' if self.is_name else '',
         )
 
